@@ -49,6 +49,7 @@ func runFault(p *eng.Program, faults []eng.Fault, scratch string, idx int) (*eng
 	defer os.RemoveAll(dir)
 	defer os.RemoveAll(dir + ".copy")
 	fs := eng.NewFS()
+	fs.KeepData = true
 	fs.Faults = faults
 	fs.Activate()
 	defer eng.DeactivateFS()
